@@ -120,6 +120,25 @@ impl Encoder {
     }
 }
 
+#[cfg(feature = "verif-hooks")]
+impl Encoder {
+    /// Verification hook: encoder with the given dense generator matrix for
+    /// the parity (what `from_h` computes as `H1^{-1} H0`).
+    pub fn verif_from_dense_generator(gen_matrix: Array2<GF2>) -> Encoder {
+        Encoder {
+            encoder: EncoderType::DenseGenerator { gen_matrix },
+        }
+    }
+
+    /// Verification hook: staircase-type encoder with the given sparse matrix
+    /// `H0` (what `from_h` extracts from a staircase `H = [H0 H1]`).
+    pub fn verif_from_staircase_generator(gen_matrix: SparseMatrix) -> Encoder {
+        Encoder {
+            encoder: EncoderType::Staircase { gen_matrix },
+        }
+    }
+}
+
 #[cfg(test)]
 mod test {
     use super::*;
